@@ -2,9 +2,14 @@
 //! a "spawned" task has already run inline when `spawn` is reached (its value is passed in); the calls are logged.
 #![allow(static_mut_refs)]
 pub mod task {
-    pub static mut SPAWNED: u32 = 0;
-    pub static mut CLOSED: u32 = 0;
-    pub static mut WAITED: u32 = 0;
+    macro_rules! global { ($name:ident, $set:ident, $get:ident, $t:ty, $init:expr) => {
+        static mut $name: $t = $init;
+        pub fn $set(v: $t) { unsafe { $name = v; } }
+        pub fn $get() -> $t { unsafe { $name } }
+    } }
+    global!(SPAWNED, set_spawned, spawned, u32, 0);
+    global!(CLOSED, set_closed, closed, u32, 0);
+    global!(WAITED, set_waited, waited, u32, 0);
     #[derive(Debug, Default, Clone)]
     pub struct TaskTracker;
     impl TaskTracker {
